@@ -52,11 +52,22 @@
 
 (defn- mutable? [x] (case (type x) :array true :buffer true :table true false))
 
+# a buffer/array whose length field disagrees with what iteration visits (e.g. a negative count)
+# looks empty to `canon`; make it visible
+(defn- len-ok? [x]
+  (case (type x)
+    :buffer (do (var n 0) (each _ x (++ n)) (and (>= (length x) 0) (= n (length x))))
+    :array (do (var n 0) (each _ x (++ n)) (and (>= (length x) 0) (= n (length x))))
+    true))
+
+(defn- canon* [x]
+  (if (len-ok? x) (canon x) (string "BADLEN:" (length x) ":" (canon x))))
+
 (defn- arg-canon [a raw]
   (cond
     (and (symbol? raw) (= 36 (get raw 0))) (string raw)
     (or (function? a) (cfunction? a)) "fn"
-    (canon a)))
+    (canon* a)))
 
 (batch-run
   (fn [item]
@@ -74,7 +85,7 @@
     (def [ok res] (protect (f ;args)))
     (if ok
       (do
-        (buffer/push out "R\t" (canon res) "\t")
+        (buffer/push out "R\t" (canon* res) "\t")
         (var al -1)
         (when (mutable? res)
           (for i 0 (length args)
